@@ -26,6 +26,8 @@ func init() {
 			{ID: "C12.5", Desc: "empty elements skipped, optional whitespace trimmed", Run: ruleC12_5, MinSites: 2},
 			{ID: "C12.6", Desc: "one tokenizer for request and response directives", Run: ruleC12_6, MinSites: 1},
 			{ID: "C12.9", Desc: "a field of a 304 that is split over several lines is merged with all of its lines", Run: func(c *Ctx) { ruleMergeFilter(c, "C12.9") }, MinSites: 1},
+			{ID: "C12.11", Desc: "of a repeated directive the first occurrence is used (the collector does not overwrite)", Run: ruleC12_11, MinSites: 1},
+			{ID: "C12.12", Desc: "a field list counts as present only if it has a member (a list of empty elements is the bare directive)", Run: ruleC12_12, MinSites: 1},
 			{ID: "C12.10", Desc: "an accessor that reports a directive as present hands out its argument in either spelling (token or quoted-string)", Run: ruleC12_10, MinSites: 1},
 			{ID: "C12.8", Desc: "saturated delta-seconds stay saturated in later sums", Run: func(c *Ctx) { ruleDurationSums(c, "C12.8") }, MinSites: 2},
 			{ID: "C12.7", Desc: "in the list splitter an escaped character is consumed before quotes and commas are interpreted", Run: ruleC12_7, MinSites: 1},
@@ -670,5 +672,119 @@ func ruleC12_10(c *Ctx) {
 	}
 	if n == 0 {
 		c.Pass("C12.10", "present-carries-argument", desc, fmt.Sprintf("%d tuple accessors, none returns a literal present=true", len(fns)))
+	}
+}
+
+// ruleC12_11: `max-age=0, max-age=3600` and `no-cache, no-cache="X"`: RFC 9111 §4.2.1 asks for the first occurrence (or
+// for treating the response as stale). The function that collects the tokenizer's pairs into the directive map must not
+// let a later occurrence overwrite an earlier one: every map update is guarded by a failed lookup of that key, or stores
+// the empty (bare, most restrictive) argument.
+func ruleC12_11(c *Ctx) {
+	if !c.Need("C12.11", "parseReq", "parseResp") {
+		return
+	}
+	desc := "the directive map is filled first-occurrence-wins"
+	var collectors []*ssa.Function
+	for _, role := range []string{"parseReq", "parseResp"} {
+		for g := range c.P.StaticTree(c.A.F(role)) {
+			rs := sigResults(g)
+			if len(rs) != 1 {
+				continue
+			}
+			if mt, ok := rs[0].Underlying().(*types.Map); ok && isStringType(mt.Key()) && isStringType(mt.Elem()) && g != c.A.F(role) {
+				collectors = append(collectors, g)
+			}
+		}
+	}
+	sort.Slice(collectors, func(i, j int) bool { return FuncName(collectors[i]) < FuncName(collectors[j]) })
+	seen := map[*ssa.Function]bool{}
+	n := 0
+	for _, col := range collectors {
+		if seen[col] {
+			continue
+		}
+		seen[col] = true
+		n++
+		updates := 0
+		bad := ""
+		for _, g := range c.reachableFrom(col) {
+			if g != col && !lexicallyInside(g, col) {
+				continue
+			}
+			instrsOf(g, func(in ssa.Instruction) {
+				mu, ok := in.(*ssa.MapUpdate)
+				if !ok {
+					return
+				}
+				updates++
+				if k, isC := constStr(mu.Value); isC && k == "" {
+					return
+				}
+				guarded := false
+				for _, dc := range dominatingConds(mu.Block()) {
+					for _, lf := range condLeaves(dc.cond, dc.onTrue) {
+						ex, ok := lf.v.(*ssa.Extract)
+						if !ok || lf.val {
+							continue
+						}
+						if lk, ok := ex.Tuple.(*ssa.Lookup); ok && lk.CommaOk && c.An.sameCanon(lk.Index, mu.Key) {
+							guarded = true
+						}
+					}
+				}
+				if !guarded {
+					bad = c.P.InstrPos(mu) + ": stores the argument whether or not the directive is already in the map"
+				}
+			})
+		}
+		key := "first-occurrence fn=" + c.P.ShortName(col)
+		switch {
+		case updates == 0:
+			c.Fail("C12.11", key, desc, c.P.ShortName(col)+": the pairs are collected by a library helper (last occurrence wins); `max-age=0, max-age=3600` is fresh for an hour and `no-cache, no-cache=\"X-Foo\"` loses its unqualified no-cache")
+		case bad != "":
+			c.Fail("C12.11", key, desc, bad+"; `max-age=0, max-age=3600` is fresh for an hour and `no-cache, no-cache=\"X-Foo\"` loses its unqualified no-cache")
+		default:
+			c.Pass("C12.11", key, desc, fmt.Sprintf("%s: %d guarded update(s)", c.P.ShortName(col), updates))
+		}
+	}
+	if n == 0 {
+		c.Undecided("C12.11", "first-occurrence", desc, "no function returning the directive map found below the parsers")
+	}
+}
+
+// ruleC12_12: `no-cache=","` and `no-cache=" "` consist of empty list elements only and mean the same as `no-cache=""`.
+// The decoder of comma-separated arguments (raw value -> (sequence, valid)) may report valid=true only from inside an
+// iteration over the members (one exists), not from a mere length test of the raw string.
+func ruleC12_12(c *Ctx) {
+	desc := "the list decoder reports a list as valid only when the splitter produced a member"
+	n := 0
+	for fn := range c.A.RawValue {
+		rs := sigResults(fn)
+		if len(rs) != 2 {
+			continue
+		}
+		if _, isSig := rs[0].Underlying().(*types.Signature); !isSig {
+			continue // not a sequence decoder
+		}
+		n++
+		bad := ""
+		instrsOf(fn, func(in ssa.Instruction) {
+			r, ok := in.(*ssa.Return)
+			if !ok || len(r.Results) != 2 {
+				return
+			}
+			if b, isC := constBool(r.Results[1]); isC && b && !blockInCycle(r.Block()) {
+				bad = c.P.InstrPos(r)
+			}
+		})
+		key := "list-needs-member fn=" + c.P.ShortName(fn)
+		if bad != "" {
+			c.Fail("C12.12", key, desc, bad+": valid=true is returned outside any iteration over the members; `no-cache=\",\"` is then a qualified no-cache naming no field: the response is reused without validation and nothing is stripped")
+		} else {
+			c.Pass("C12.12", key, desc, c.P.ShortName(fn))
+		}
+	}
+	if n == 0 {
+		c.Undecided("C12.12", "list-needs-member", desc, "no raw decoder returning a sequence")
 	}
 }
